@@ -929,6 +929,34 @@ class Machine(object):
             a = deref_val(args[0])
             if isinstance(a, VecVal):
                 return finish(a)
+        if (d == "std::iter::Extend::extend" or name.endswith("as std::iter::Extend<T>>::extend")) and len(args) == 2 and "Vec" in name \
+                and any(str(x).startswith("std::option::Option<") for x in ((callee_info(t) or {}).get("args") or [])[-1:]):
+            # vec.extend(option): push the payload when there is one
+            tgt = args[0]
+            tv = deref_val(tgt)
+            ov = deref_val(args[1])
+            if isinstance(ov, AdtVal) and ov.variant == 0:
+                return finish(Const("unit", None))
+            if isinstance(ov, AdtVal) and ov.variant == 1:
+                pay = self.field_cell(ov, 0, None, None).val
+                if isinstance(tv, VecVal):
+                    tv.elems.append(Cell(pay))
+                else:
+                    st.effects.append(("push", base_label(lab(tv)), pay, loc(t)))
+                    self.bump(tgt)
+                return finish(Const("unit", None))
+            if isinstance(ov, Opaque) and not isinstance(tv, VecVal):
+                s2 = copy.deepcopy(st)
+                d2 = self.find_copied_cell(st, s2, dest)
+                d2.val = Const("unit", None)
+                s2.conds.append((("variant", ov.label), "None"))
+                s2.frames[-1].bb = target
+                st.conds.append((("variant", ov.label), "Some"))
+                st.effects.append(("push", base_label(lab(tv)), Opaque(join_label(ov.label, "Some.0")), loc(t)))
+                self.bump(tgt)
+                dest.val = Const("unit", None)
+                fr.bb = target
+                return [s2]
         if d == "std::vec::Vec::<T, A>::push":
             tgt = args[0]
             tv = deref_val(tgt)
@@ -984,6 +1012,25 @@ class Machine(object):
             r = self.try_model(d.rsplit("::", 1)[1], name, args)
             if r is not None:
                 return finish(r)
+            a0 = deref_val(args[0])
+            if d.endswith("::branch") and isinstance(a0, Opaque) and ("Option" in name or "Result" in name) and "ControlFlow" not in name:
+                # `?` on an opaque Option / Result: fork on its variant, like a match on it
+                CF = "std::ops::ControlFlow"
+                is_opt = "Option" in name
+                good, bad = ("Some", "None") if is_opt else ("Ok", "Err")
+                s2 = copy.deepcopy(st)
+                d2 = self.find_copied_cell(st, s2, dest)
+                if is_opt:
+                    resid = AdtVal("std::option::Option", 0, {}, None, "None")
+                else:
+                    resid = AdtVal("std::result::Result", 1, {0: Cell(Opaque(join_label(a0.label, "Err.0")))}, None, "Err")
+                d2.val = AdtVal(CF, 1, {0: Cell(resid)}, None, "Break")
+                s2.conds.append((("variant", a0.label), bad))
+                s2.frames[-1].bb = target
+                st.conds.append((("variant", a0.label), good))
+                dest.val = AdtVal(CF, 0, {0: Cell(Opaque(join_label(a0.label, good + ".0")))}, None, "Continue")
+                fr.bb = target
+                return [s2]
             # undecided: pure opaque value (its variant is forked on when it is matched)
             return finish(Opaque(("call", name, tuple(lab(a) for a in args)), t["dest"]["ty"]))
         if d == "std::boxed::Box::<T>::new_uninit" or name == "std::boxed::Box::<T>::new_uninit":
